@@ -27,6 +27,10 @@ inductive FStmt where
   | dec (v : String)
   deriving Repr, DecidableEq, Inhabited
 
+/-- the variable a statement assigns -/
+def target : FStmt → String
+  | .asg v _ | .bin v _ _ _ | .opasg v _ _ | .inc v | .dec v => v
+
 def Atom.isConst : Atom → Bool | .const _ => true | .var _ => false
 
 /-- the declared fragment: a binary operation has at least one variable operand (two constants
